@@ -620,12 +620,12 @@ func (o *Obligation) PurifiedScript() string {
 // ---------------------------------------------------------------------
 
 type SolveResult struct {
-	Status  string // unsat sat unknown timeout error
-	Solver  string
-	Ms      int64
-	Output  string
-	Model   string
-	Tried   []string
+	Status string // unsat sat unknown timeout error
+	Solver string
+	Ms     int64
+	Output string
+	Model  string
+	Tried  []string
 }
 
 type solverSpec struct {
